@@ -225,6 +225,14 @@ class Recorder:
 
         def randn(*a, **k):
             out = o_randn(*a, **k)
+            if self.inject and out.numel() and self.inj_rng.random() < 0.2:
+                # a draw far in the tail (|z| between 4.2 and 7: about one standard-normal draw in 10^5 and beyond): as legitimate
+                # as any other, the proposal is still std * z
+                out = out.clone()
+                flat = out.reshape(-1)
+                for _ in range(self.inj_rng.randrange(1, 3)):
+                    flat[self.inj_rng.randrange(flat.numel())] = self.inj_rng.choice([-1.0, 1.0]) * self.inj_rng.uniform(4.2, 7.0)
+                self.tail_draws = getattr(self, "tail_draws", 0) + 1
             self._on_normal(out)
             return out
 
